@@ -406,7 +406,7 @@ func guardedBy(c *Ctx, rule string, named *types.Named, guarded map[string]bool,
 		h, ok := held[a.Fn]
 		if !ok {
 			entry := EntryLockset(a.Fn)
-			if entryHeld[a.Fn.String()] {
+			if entryHeld[FStr(a.Fn)] {
 				entry[Desc(a.Base)+"."+mutexField] = 1
 			}
 			h = MustHeld(a.Fn, entry)
@@ -475,17 +475,17 @@ func c12SinkOwnership(c *Ctx, rule string) {
 				continue // the field is passed as an argument (bufio.NewWriterSize(s.WS, n)), not called
 			}
 			switch {
-			case fa == "WS" && f.Name() != "Sync":
-				direct = append(direct, FuncKey(fn)+": "+Desc(a0)+"."+f.Name())
-			case fa == bwsR.writer && (f.Name() == "Reset" || f.Name() == "ReadFrom"):
-				discard = append(discard, FuncKey(fn)+": "+Desc(a0)+"."+f.Name())
+			case fa == "WS" && FNm(f) != "Sync":
+				direct = append(direct, FuncKey(fn)+": "+Desc(a0)+"."+FNm(f))
+			case fa == bwsR.writer && (FNm(f) == "Reset" || FNm(f) == "ReadFrom"):
+				discard = append(discard, FuncKey(fn)+": "+Desc(a0)+"."+FNm(f))
 			case fa == bwsR.writer && f.Pkg() != nil && f.Pkg().Path() == "bufio":
-				switch f.Name() {
+				switch FNm(f) {
 				case "Write", "Flush", "Available", "Buffered", "Size":
 				default:
 					// WriteString / WriteByte / WriteRune / AvailableBuffer …: bufio cuts a string that is larger than
 					// the buffer into buffer-sized sink writes when the sink has no WriteString of its own
-					pieces = append(pieces, FuncKey(fn)+": "+Desc(a0)+"."+f.Name())
+					pieces = append(pieces, FuncKey(fn)+": "+Desc(a0)+"."+FNm(f))
 				}
 			}
 		}
@@ -545,7 +545,7 @@ func c12Rules(c *Ctx, r1, r2, r3, r4, r5 string) {
 	if r1 != "" {
 		// initialize: all callers hold the lock
 		entry := map[string]bool{}
-		callers := c.CallersOf(initFn.String())
+		callers := c.CallersOf(FStr(initFn))
 		allHeld := len(callers) > 0
 		for _, cl := range callers {
 			h := MustHeld(cl.Parent(), nil)
@@ -594,7 +594,7 @@ func c12Rules(c *Ctx, r1, r2, r3, r4, r5 string) {
 			allHeld = allHeld && ok
 		}
 		if allHeld {
-			entry[initFn.String()] = true
+			entry[FStr(initFn)] = true
 		}
 		guardedBy(c, r1, bws, roles.guarded(), roles.mu, entry, func(a Access) string {
 			if (a.Fn == loop || onlyCalledFrom(a.Fn, loop, 0)) && !a.Write && (a.Field == top(roles.ticker) || a.Field == top(roles.stop) || a.Field == top(roles.done)) {
@@ -667,7 +667,7 @@ func c12Rules(c *Ctx, r1, r2, r3, r4, r5 string) {
 				},
 			})
 			if trunc || len(seqs) == 0 {
-				c.Und(r3, sync.String(), slot, sync.Pos(), "path exploration of Sync incomplete (%d sequences, truncated=%v)", len(seqs), trunc)
+				c.Und(r3, FStr(sync), slot, sync.Pos(), "path exploration of Sync incomplete (%d sequences, truncated=%v)", len(seqs), trunc)
 				continue
 			}
 			want := "flush ; sync ; ret[flush+sync]"
@@ -681,9 +681,9 @@ func c12Rules(c *Ctx, r1, r2, r3, r4, r5 string) {
 				}
 			}
 			if iv == 1 {
-				c.Check(len(bad) == 0, r3, sync.String(), "flush-before-sync/"+ls.name, sync.Pos(), "in the "+ls.name+" state every path of Sync (helpers explored inline) flushes the buffer, then syncs the sink, and returns an error built from both results (offending paths: %v)", bad)
+				c.Check(len(bad) == 0, r3, FStr(sync), "flush-before-sync/"+ls.name, sync.Pos(), "in the "+ls.name+" state every path of Sync (helpers explored inline) flushes the buffer, then syncs the sink, and returns an error built from both results (offending paths: %v)", bad)
 			} else {
-				c.Check(len(bad) == 0, r3, sync.String(), "always-syncs-sink", sync.Pos(), "with initialized fixed to false every path of Sync syncs the sink (no flush of the not yet created buffer) and returns that result (offending paths: %v)", bad)
+				c.Check(len(bad) == 0, r3, FStr(sync), "always-syncs-sink", sync.Pos(), "with initialized fixed to false every path of Sync syncs the sink (no flush of the not yet created buffer) and returns that result (offending paths: %v)", bad)
 			}
 		}
 	}
@@ -691,7 +691,7 @@ func c12Rules(c *Ctx, r1, r2, r3, r4, r5 string) {
 		c12Stop(c, r4, roles, stop)
 	}
 	if r5 != "" {
-		name := loop.String()
+		name := FStr(loop)
 		// Path exploration of the loop (helpers inline, two rounds): what each select outcome leads to
 		cut := 0
 		closeEv := func(arg ssa.Value, st *ConcState) string {
@@ -734,7 +734,7 @@ func c12Rules(c *Ctx, r1, r2, r3, r4, r5 string) {
 						return closeEv(x.Call.Args[0], st)
 					}
 					if sc := StaticCallee(x); sc != nil && !Eligible(sc) && curProgRoot(sc) {
-						return "call:" + sc.Name()
+						return "call:" + FNm(sc)
 					}
 				case *ssa.Return:
 					return "ret"
@@ -959,7 +959,7 @@ func onlyCalledFrom(f, root *ssa.Function, depth int) bool {
 // channel inside one critical section (so that two Stops cannot both close it), waits for the flush loop with no lock
 // held (it may need the lock to finish, issue 1428), and then syncs once more.
 func c12Stop(c *Ctx, rule string, roles bwsRoles, stop *ssa.Function) {
-	name := stop.String()
+	name := FStr(stop)
 	recv := stop.Params[0]
 	rn := PN(recv)
 	fieldOf := func(st *ConcState, v ssa.Value) string {
@@ -980,7 +980,7 @@ func c12Stop(c *Ctx, rule string, roles bwsRoles, stop *ssa.Function) {
 			}
 			seqs, trunc := ConcPaths(stop, ConcCfg{
 				InitFields: ls.initFields(recv), Conc: ls.conc(rn), Fork: ls.fork(roles),
-				Inline: func(h *ssa.Function) bool { return h.Name() != "Sync" },
+				Inline: func(h *ssa.Function) bool { return FNm(h) != "Sync" },
 				Branch: func(cond ssa.Value, taken bool, st *ConcState) string {
 					// a nil test of the done channel: it is created together with the initialised flag (R12.1:
 					// assigned only in the initialiser), so "nil" cannot be observed on a running syncer
@@ -1055,7 +1055,7 @@ func c12Stop(c *Ctx, rule string, roles bwsRoles, stop *ssa.Function) {
 							// waiting for the loop's Done: the WaitGroup form of receiving from the done channel
 							return "recv(" + fieldOf(st, x.Call.Args[0]) + ")"
 						case IsCallTo(x, "(*sync.WaitGroup).Add", "(*sync.WaitGroup).Done"):
-							return "wg." + CalleeFunc(x).Name() + "(" + fieldOf(st, x.Call.Args[0]) + ")"
+							return "wg." + FNm(CalleeFunc(x)) + "(" + fieldOf(st, x.Call.Args[0]) + ")"
 						}
 					case *ssa.UnOp:
 						if x.Op == token.ARROW {
@@ -1116,7 +1116,7 @@ func c12Stop(c *Ctx, rule string, roles bwsRoles, stop *ssa.Function) {
 // Available) and "something is pending" (Buffered > 0) - any further conjunct would let bufio split an oversized write
 // across two sink writes; a flush never follows the write.
 func c12Write(c *Ctx, rule string, roles bwsRoles, write *ssa.Function) {
-	name := write.String()
+	name := FStr(write)
 	p := writeParam(write)
 	if p == nil {
 		c.Und(rule, name, "single-whole-write", write.Pos(), "cannot identify the payload parameter")
@@ -1350,7 +1350,7 @@ func c12Write(c *Ctx, rule string, roles bwsRoles, write *ssa.Function) {
 // the configured interval; evaluated with Size / FlushInterval fixed to 0 and to an odd non-zero value.
 func c12BufferSize(c *Ctx, rule string, roles bwsRoles) {
 	fn := roles.initFn
-	name := fn.String()
+	name := FStr(fn)
 	rn := PN(fn.Params[0])
 	defSize, ok1 := c.ConstVal(CorePath, "_defaultBufferSize")
 	defIvl, ok2 := c.ConstVal(CorePath, "_defaultFlushInterval")
@@ -1397,7 +1397,7 @@ func c12BufferSize(c *Ctx, rule string, roles bwsRoles) {
 					return "buffer(" + sink + "," + itoa(int(k)) + ")"
 				case IsCallTo(x, "bufio.NewWriter"):
 					return "buffer(default-bufio-size)"
-				case x.Call.IsInvoke() && x.Call.Method.Name() == "NewTicker" && len(x.Call.Args) == 1:
+				case x.Call.IsInvoke() && FNm(x.Call.Method) == "NewTicker" && len(x.Call.Args) == 1:
 					k, known := st.Int(x.Call.Args[0])
 					if !known {
 						return "ticker(?" + st.Desc(x.Call.Args[0]) + ")"
